@@ -243,7 +243,7 @@ def run(ctx):
             bs = [((float(a), 0.0, 0.0), (float(b), 1.0, 1.0)) for a, b in combo]
             sapcases.append((0, n * (n - 1) // 2 if n > 1 else 1, bs))
     nexh = len(sapcases)
-    for _ in range(120 if quick else 3000):
+    for _ in range(90 if quick else 3000):
         n = rng.randrange(0, 9 if quick else 14)
         mode = rng.choice(["int", "int", "tie", "tie", "real"])
         axis = rng.choice([0, 0, 1, 2, 0, 1, 2, 3, -1]) if rng.random() < 0.15 else rng.randrange(3)
@@ -266,7 +266,7 @@ def run(ctx):
     variants = [(0, 0, 0.0), (DSBL["FILTERPARENT"], 0, 0.0), (DSBL["MIDPHASE"], 0, 0.0),
                 (DSBL["FILTERPARENT"] | DSBL["MIDPHASE"], 0, 0.0), (DSBL["CONTACT"], 0, 0.0), (DSBL["CONSTRAINT"], 0, 0.0),
                 (0, ENBL_OVERRIDE, 0.04), (DSBL["MIDPHASE"], ENBL_OVERRIDE, 0.0)]
-    nsc = 20 if quick else 400
+    nsc = 14 if quick else 400
     for i in range(nsc):
         seed = rng.randrange(1, 1 << 40)
         nb = rng.choice([2, 3, 4, 6, 8, 10, 14]) if quick else rng.choice([2, 3, 4, 6, 8, 10, 14, 20, 30])
@@ -507,7 +507,7 @@ def run(ctx):
             ("c14_fbpx", [F.zlist(fbpx_res)], None, "fun res => zlist_eqb (%s) res" % body)]
     from concurrent.futures import ThreadPoolExecutor
     with ThreadPoolExecutor(max_workers=len(jobs)) as ex:
-        results = list(ex.map(lambda j: ctx.coq_eval(j[0], IMPORTS, j[1], j[3], shard={"c14_sap": 150, "c14_bp": 30}.get(j[0], 1000)), jobs))
+        results = list(ex.map(lambda j: ctx.coq_eval(j[0], IMPORTS, j[1], j[3], shard={"c14_sap": 120 if quick else 150, "c14_bp": 30}.get(j[0], 1000)), jobs))
     tm["coq_eval"] = round(time.time() - t0, 1)
     for (name, cases, src, chk), fails in zip(jobs, results):
         nfail += len(fails)
